@@ -186,6 +186,27 @@ CLAIMED["C18"] = _e(
     "responses through the real _process_response.",
     "DESIGN.md §3 C18",
 )
+CLAIMED["C03"] = _e(
+    "Lean 4 proof: route table regenerated from hap_handler.py by AST (every non-exempt route has a recognised privilege "
+    "guard, decide), noninterference for every unverified world, every handler body and every request (refusal, state "
+    "unchanged, response independent of the world), is_encrypted only set by the pair-verify success branch (extracted); "
+    "exhaustive route x connection-state x body sweep on the real protocol with canaries and state digests",
+    "Kernel-checked noninterference for arbitrary handler bodies over the regenerated table; all routes x 5 "
+    "pre-verification states x bodies swept each run (all methods x paths in thorough).",
+    "Guard-shape classification by the extractor is tied dynamically by the sweep; handler bodies are parameters.",
+    "DESIGN.md §3 C03",
+)
+CLAIMED["C19"] = _e(
+    "Lean 4 proof over a model of the h11 pump and dispatch with h11, urlparse and handlers as arbitrary parameters: no "
+    "exception escapes data_received, one response per EndOfMessage in order unless closing, progress, isolation of a "
+    "failing request; interaction-transcript replay of the real HAPServerProtocol on structured hostile HTTP streams; "
+    "h11-client re-parse oracle",
+    "Kernel-checked for every h11 event sequence and every parameter outcome; ~2000 byte streams per quick run "
+    "(valid/pipelined/chunked/truncated/garbage, header bytes >= 0x80, bracket targets). Partial: h11's byte-level "
+    "parsing is trusted library code; C19_ready_partial leaves h11 raising inside _handle_response_ready unproved.",
+    "h11 raises nothing but ProtocolError; asyncio never calls data_received after close; BaseException out of scope.",
+    "DESIGN.md §3 C19",
+)
 
 NOT_YET = "not yet built in this round (model + theorems + correspondence pending; see DESIGN.md §7 build order)"
 NA = {}
